@@ -251,7 +251,10 @@ fn document_expectation(doc: &str) -> Vec<(String, Vec<(String, usize, usize)>)>
 }
 
 /// outcome of loading one case: "ok" (consistent store), "err", "panic:<loc>", "inconsistent:<sig>"
-fn load_case(dir: &std::path::Path, case: &Case) -> String {
+fn load_case(dir: &std::path::Path, case: &Case) -> String { load_case_progress(dir, case, None) }
+
+/// `progress`: a file that gets the word `loaded` once the loader has returned a store (what comes after is the use of it)
+fn load_case_progress(dir: &std::path::Path, case: &Case, progress: Option<&std::path::Path>) -> String {
     let sub = dir.join("case");
     std::fs::remove_dir_all(&sub).ok();
     std::fs::create_dir_all(&sub).ok();
@@ -267,6 +270,7 @@ fn load_case(dir: &std::path::Path, case: &Case) -> String {
         Err(m) => format!("panic:{}:{}", last_panic_loc(), m.chars().take(60).collect::<String>().replace('\n', " ")),
         Ok(Err(_)) => "err".into(),
         Ok(Ok(store)) => {
+            if let Some(p) = progress { let _ = std::fs::write(p, "loaded"); }
             // what came back must be a store: observable, index-consistent, serialisable
             match guarded(std::panic::AssertUnwindSafe(|| { let o = observe(&store); let c = consistency(&store); substore_probe(&store); let j = store.to_json_string(&Config::default()).is_ok(); (o.len(), c, j) })) {
                 Err(m) => format!("loaded-store-panics:{}:{}", last_panic_loc(), m.chars().take(60).collect::<String>().replace('\n', " ")),
@@ -327,9 +331,11 @@ pub fn worker(batch: &str, out: &str, start: usize) {
     let cases = read_cases(std::path::Path::new(batch));
     let dir = scratch_dir("w");
     let mut f = std::fs::OpenOptions::new().create(true).append(true).open(out).expect("out file");
+    let progress = std::path::PathBuf::from(format!("{}.progress", out));
     for c in cases.iter().skip(start) {
         let t0 = std::time::Instant::now();
-        let o = load_case(&dir, c);
+        let _ = std::fs::write(&progress, "loading");
+        let o = load_case_progress(&dir, c, Some(&progress));
         writeln!(f, "{}\t{}", o, t0.elapsed().as_millis()).ok();
         f.flush().ok();
     }
@@ -356,6 +362,9 @@ fn run_batch(cases: &[Case], dir: &std::path::Path, tag: usize) -> Vec<(String, 
         if done < cases.len() {
             // the worker died on case `done`
             let how = match status { Ok(s) if s.code() == Some(124) => "hang(>120s)".to_string(), Ok(s) => format!("abort({})", s.code().map(|c| c.to_string()).unwrap_or("signal".into())), Err(e) => format!("spawn-failed({})", e) };
+            // had the loader already returned a store? then it is the use of that store that hangs or aborts
+            let loaded = std::fs::read_to_string(format!("{}.progress", out.display())).map(|x| x == "loaded").unwrap_or(false);
+            let how = if loaded { format!("loaded-store-{}", how) } else { how };
             results.push((how.clone(), 0));
             let mut f = std::fs::OpenOptions::new().append(true).create(true).open(&out).unwrap();
             writeln!(f, "{}\t0", how).ok();
@@ -586,9 +595,11 @@ pub fn run(opts: &Opts) -> Report {
             rep.count(&format!("{}:{}", c.format, outcome));
             rep.count(&format!("class:{}", c.class.split('/').take(2).collect::<Vec<_>>().join("/")));
             let doc = || -> Vec<String> { let mut v = vec![format!("ut format={} class={}", c.format, c.class), format!("main-hex: {}", c.main.iter().map(|x| format!("{:02x}", x)).collect::<String>())]; for (n, b) in &c.extra { v.push(format!("file {} hex: {}", n, b.iter().map(|x| format!("{:02x}", x)).collect::<String>())); } v };
-            if c.format == "cbor" && !c.class.starts_with("cbor/structure/") && !c.class.starts_with("cbor/valid") && (o.starts_with("loaded-store-panics") || o.starts_with("inconsistent")) {
+            if c.format == "cbor" && !c.class.starts_with("cbor/structure/") && !c.class.starts_with("cbor/valid") && (o.starts_with("loaded-store-panics") || o.starts_with("loaded-store-hang") || o.starts_with("loaded-store-abort") || o.starts_with("inconsistent")) {
                 // one cause: the CBOR loader does not cross-check what it decodes
-                rep.fail(if o.starts_with("loaded") { "panic" } else { "oracle" }, &format!("C19/cbor/corrupted-input-accepted/{}", if o.starts_with("loaded") { "store-panics-on-use" } else { "store-inconsistent" }), doc(), "an error or a consistent store", o);
+                rep.fail(if o.starts_with("loaded") { "panic" } else { "oracle" }, &format!("C19/cbor/corrupted-input-accepted/{}", if o.starts_with("loaded-store-panics") { "store-panics-on-use" } else if o.starts_with("loaded") { "store-hangs-or-aborts-on-use" } else { "store-inconsistent" }), doc(), "an error or a consistent store", o);
+            } else if o.starts_with("loaded-store-hang") || o.starts_with("loaded-store-abort") {
+                rep.fail("panic", &format!("C19/{}/loaded-store-{}/{}", c.format, if o.starts_with("loaded-store-hang") { "hangs" } else { "aborts" }, c.class.split('/').skip(1).collect::<Vec<_>>().join("/")), doc(), "a usable store or an error", o);
             } else if o.starts_with("panic") {
                 let loc = o.split(':').nth(1).unwrap_or("?").to_string() + ":" + o.split(':').nth(2).unwrap_or("?");
                 rep.fail("panic", &format!("C19/{}/load-panics/{}", c.format, loc), doc(), "Ok or Err", o);
